@@ -300,10 +300,16 @@ func vdrCase(c *Ctx, focus string) {
 				if !strings.HasPrefix(frel, forkDir+"/") || exists(fp) {
 					continue
 				}
+				// a file written below a symlinked directory can be removed under
+				// either of its names
+				lrel := frel
+				if rec.Logical != "" {
+					lrel = "ps/" + strings.TrimPrefix(rec.Logical, r.PsDir+"/")
+				}
 				for _, ev := range vos.W.Events {
 					if ev.Seq > rec.Seq && ev.Site == "storage.go" && ev.Err == "" &&
 						(ev.Op == "removeall" || ev.Op == "remove") &&
-						(ev.Path == frel || strings.HasPrefix(frel, ev.Path+"/")) {
+						(ev.Path == frel || strings.HasPrefix(frel, ev.Path+"/") || ev.Path == lrel || strings.HasPrefix(lrel, ev.Path+"/")) {
 						// Only removals whose accounting reached the disk count: the
 						// same mrp process wrote this fork's (partial) kill report
 						// afterwards.  A SIGKILL between a removal and the report
